@@ -88,9 +88,7 @@ class TokenParser(Parser):
         try:
             value = ast.literal_eval(value)
         except (ValueError, SyntaxError):
-            pass
-
-        if isinstance(value, str):
+            # Not a literal (a quoted string is one and stays a string), maybe an expression
             try:
                 value = Expression(self.cstruct, value).evaluate()
             except (ExpressionParserError, ExpressionTokenizerError):
